@@ -5,6 +5,7 @@ package c07
 
 import (
 	"fmt"
+	"strings"
 	"testing"
 
 	"github.com/cockroachdb/apd/v3"
@@ -22,10 +23,37 @@ var genCheap = arith.Gen(cheap, 400, false)
 var genCostly = arith.Gen(costly, 30, false)
 
 func genCase(t *rapid.T) arith.Case {
+	var c arith.Case
 	if gen.Pick(t, 5, "costly") == 0 {
-		return genCostly(t)
+		c = genCostly(t)
+	} else {
+		c = genCheap(t)
 	}
-	return genCheap(t)
+	// Finite results also come from special operands (x rem Inf, x**Inf, x/Inf ...) and from
+	// operands that are a power of ten written with more digits than the precision (1.000000,
+	// 100.000): paths that return a constant or a copy of an operand.
+	switch gen.Pick(t, 12, "shape") {
+	case 0:
+		c.Y = gen.Special(t, "ysp")
+	case 1:
+		c.X = gen.Special(t, "xsp")
+	case 2, 3:
+		k := rapid.IntRange(0, 2*int(c.Ctx.P)+5).Draw(t, "onezeros")
+		m := rapid.IntRange(-3, 3).Draw(t, "onemag")
+		if gen.Pick(t, 2, "isone") == 0 {
+			m = 0
+		}
+		one := core.Dec{Coeff: "1" + strings.Repeat("0", k), Exp: int32(m - k)}
+		if gen.Pick(t, 3, "which") == 0 {
+			c.Y = one
+		} else {
+			c.X = one
+			if gen.Pick(t, 3, "yinf") == 0 {
+				c.Y = core.Dec{Form: int8(apd.Infinite), Neg: rapid.Bool().Draw(t, "yinfneg")}
+			}
+		}
+	}
+	return c
 }
 
 func check(c arith.Case, st *core.Stats) error {
